@@ -190,6 +190,8 @@ def make_tag(desc):
         return user_tag(desc[1])
     if kind == "AssumeNonNegative":
         return pt.tags.AssumeNonNegative()
+    if kind == "ForceValueArg":
+        return pt.tags.ForceValueArgTag()
     raise ValueError(kind)
 
 
